@@ -79,3 +79,25 @@ package domain
 //@   ensures  0 <= idx.persistHead && idx.persistHead <= old(idx.persistHead)
 //@   modifies idx
 //@   pragma opaque_func_values persistPointers
+
+//@ # ---- time-range deletes (C04). startOffset = bytes kept at the head of the start domain,
+//@ # endOffset = bytes kept at the tail of the end domain. The byte range to delete is empty iff:
+//@ spec func emptyDelete(sp int, ep int, so telem.Size, eo telem.Size, n int, S telem.Size, E telem.Size) bool =
+//@   sp == n || ep == -1 || sp > ep || (sp == ep && so+eo == S) || (sp+1 == ep && so == S && eo == E)
+//@ spec func clampSize(x telem.Size, hi telem.Size) telem.Size = __ite(x < 0, 0, __ite(x > hi, hi, x))
+
+//@ # from the property: a delete that covers at least one byte is carried out (ok), one that
+//@ # covers none may be skipped, inconsistent positions are an error
+//@ func validateDelete(startPosition int, endPosition int, startOffset *telem.Size, endOffset *telem.Size, idx *index) (ok bool, err error)
+//@   requires startOffset != nil && endOffset != nil && startOffset != endOffset && idx != nil
+//@   requires 0 <= startPosition && startPosition <= len(idx.mu.pointers) && -1 <= endPosition && endPosition < len(idx.mu.pointers)
+//@   ensures  startPosition < len(idx.mu.pointers) && endPosition >= 0 ==>
+//@              *startOffset == clampSize(old(*startOffset), telem.Size(idx.mu.pointers[startPosition].size)) &&
+//@              *endOffset == clampSize(old(*endOffset), telem.Size(idx.mu.pointers[endPosition].size))
+//@   ensures  startPosition == len(idx.mu.pointers) || endPosition == -1 ==> !ok && err == nil
+//@   ensures  startPosition < len(idx.mu.pointers) && endPosition >= 0 && err == nil && !ok ==>
+//@              emptyDelete(startPosition, endPosition, *startOffset, *endOffset, len(idx.mu.pointers), telem.Size(idx.mu.pointers[startPosition].size), telem.Size(idx.mu.pointers[endPosition].size))
+//@   ensures  startPosition < len(idx.mu.pointers) && endPosition >= 0 ==>
+//@              ((err != nil) == ((startPosition > endPosition && (startPosition != endPosition+1 || *startOffset != 0 || *endOffset != 0)) || (startPosition == endPosition && *startOffset+*endOffset > telem.Size(idx.mu.pointers[startPosition].size))))
+//@   ensures  err != nil ==> !ok
+//@   modifies startOffset, endOffset
